@@ -52,7 +52,8 @@ def run(c):
          name="as read: GSS branches hard-wire AUTH_SUCCESSFUL", workers=1, env=A.JVM)
     if not c.quick:
         for sw in ({"BlobOmits": "sid"}, {"BlobOmits": "user"}, {"BlobOmits": "service"}, {"BlobOmits": "alg"},
-                   {"BlobOmits": "key"}, {"KeepsResultAfterBadSig": True}, {"ProbeAuthenticates": True}):
+                   {"BlobOmits": "key"}, {"KeepsResultAfterBadSig": True}, {"KeepsResultOnForeignLabel": True},
+                   {"ProbeAuthenticates": True}):
             c.mc("ServerAuth", A.mc_cfg(A.consts(MaxDepth=4, ConfigSel={"plain"}, **sw)), expect="GrantNeedsApproval",
                  name="sensitivity: %s" % sw, workers=1, env=A.JVM)
         c.mc_holds("ServerAuth", A.mc_cfg(A.consts(FailCap=10, MaxDepth=14)), name="real cap, 13 messages", workers=2, env=A.JVM)
@@ -63,7 +64,8 @@ def run(c):
     jobs = A.replay_jobs(rnd, wits, msgs, 60 if c.quick else 3500, weight, lambda w, m: must(w, m, A.primary(msgs)), "rp")
     # every key type x every signature variant x approving / partially approving application, from the start
     for pk in sorted(A.PK_VARIANTS):
-        for sig in (rnd.sample(A.SIG_KINDS, 4) if c.quick else A.SIG_KINDS):
+        label = ["label_other", "label_garbage"]
+        for sig in (label + rnd.sample([x for x in A.SIG_KINDS if x not in label], 2) if c.quick else A.SIG_KINDS):
             for cb in (("ok",) if c.quick else ("ok", "partial", "fail")):
                 r = {"k": "request", "user": "alice", "service": "ssh-connection", "method": "publickey",
                      "cb": cb, "sig": sig, "pk": pk}
@@ -80,7 +82,7 @@ def run(c):
     c.rule = ("replay: for control states of ServerAuth reached within %d messages (TLC witness per state; 5 server "
               "configurations: GSS off / on, key-exchange context absent / present, GSS handler table as is / bound) the witness "
               "history plus one more message of the %d-message alphabet (2 users x 2 services x none, password(+change), publickey x "
-              "10 signature variants x callback results, keyboard-interactive incl. queries, gssapi-keyex x 3 MICs, gssapi-with-mic, "
+              "12 signature variants x callback results, keyboard-interactive incl. queries, gssapi-keyex x 3 MICs, gssapi-with-mic, "
               "unknown method; INFO_RESPONSE, GSS token, GSS MIC), plus every key type (RSA ssh-rsa / rsa-sha2-256 / rsa-sha2-512, "
               "ECDSA 256/384/521, Ed25519) x every signature variant; traces: seeded random sequences of 1-12 messages, random names, "
               "pipelined in random bursts; distinct = distinct (configuration, message sequence, rendering)" %
